@@ -155,7 +155,11 @@ def run(F, chk):
                 rb.ok(key, cb.where(cc[0][0]), "filter predicate returns can_open() (or false)")
             else:
                 rb.violation(key, cb.where(cc[0][0]), "find_sticky can return a backend without can_open() having held")
-    rb.require(done, "find_sticky: no closure testing can_open found")
+    if not done:
+        # neither shape: the sticky lookup does not consult can_open() at all
+        fsb0 = F.body(fs)
+        rb.fn(fs)
+        rb.violation("%s|Some behind can_open" % fs, fsb0.where(), "find_sticky no longer tests Backend::can_open(): a sticky cookie sends new connections to a backend that is closing, unhealthy or inside its failure back-off")
     nk = lib.flat(F, F.body(BL + "::next_available_backend_with_key"), keep=(BL + "::available_backends",))
     rb.fn(nk.path)
     avs = [(bi, t) for bi, t in nk.calls() if callee_of(t) == BL + "::available_backends"]
